@@ -220,7 +220,7 @@ class DistSystem:
         i, c, acc, alive, nr, built, rk = m
         if kind == 'notbuilt':
             return False
-        if kind in ('len', 'words'):
+        if kind in ('len', 'len_less', 'words'):
             return acc                                   # relative to EARLIER batches; as a first call they define the shape
         if kind in ('dparange', 'autorange', 'autoneg', 'dpafloat'):
             return not acc                               # only the first call inspects the value range
